@@ -524,9 +524,6 @@ func execOp(line string) (res string) {
 		if err != nil {
 			return "err"
 		}
-		if e.Payload != string(pl) {
-			return "payload-mismatch"
-		}
 		if e.Signature == nil || e.PublicKey == nil {
 			return "missing-fields"
 		}
@@ -545,7 +542,16 @@ func execOp(line string) (res string) {
 				v2 = vs(&e2)
 			}
 		}
-		return "ok " + hx([]byte(*e.Signature)) + " " + hx([]byte(*e.PublicKey)) + " " + v1 + " " + v2
+		// P= the payload as stored in the envelope (the marshalled bytes, made valid UTF-8 by the library), and as it
+		// comes back from the envelope's own JSON round trip
+		p2 := "e"
+		if js, err := json.Marshal(e); err == nil {
+			var e2 envelope.JSONEnvelope
+			if json.Unmarshal(js, &e2) == nil {
+				p2 = hx([]byte(e2.Payload))
+			}
+		}
+		return "ok " + hx([]byte(*e.Signature)) + " " + hx([]byte(*e.PublicKey)) + " " + v1 + " " + v2 + " P=" + hx([]byte(e.Payload)) + " P2=" + p2
 	case "rng.key":
 		if !argc(1) {
 			return bad
